@@ -89,7 +89,7 @@ def blockCount : List Op → Nat
 
 theorem addOrphan_small (s : State) (b : BlockAbs) (h : s.orphans.length + 1 ≤ maxOrphans) :
     (addOrphan s b).orphans.length = s.orphans.length + 1 ∧ (addOrphan s b).evicted = s.evicted := by
-  unfold addOrphan
+  unfold addOrphan addOrphanB
   simp only []
   have : ¬ (s.orphans.length + 1 > maxOrphans) := by omega
   simp only [this, if_false]
